@@ -15,6 +15,16 @@ FLAGN = {
     'MARK': G.MARK, 'SCANDOTDIR': G.SCANDOTDIR,
 }
 ALIASES = {'DOTGLOB': 'DOTMATCH', 'EXTGLOB': 'EXTMATCH'}
+# the flags wcmatch.pathlib documents (kept here, not read from the repository's FLAG_MASK: a change of that mask must be visible)
+PATHLIB_FLAG_NAMES = ['CASE', 'IGNORECASE', 'RAWCHARS', 'DOTMATCH', 'EXTMATCH', 'GLOBSTAR', 'GLOBSTARLONG', 'NEGATE', 'MINUSNEGATE', 'BRACE',
+                      'REALPATH', 'FOLLOW', 'SPLIT', 'MATCHBASE', 'NEGATEALL', 'NODIR', 'NOUNIQUE', 'NODOTDIR', 'SCANDOTDIR']
+
+
+def pathlib_mask():
+    v = 0
+    for n in PATHLIB_FLAG_NAMES:
+        v |= FLAGN[n]
+    return v
 
 
 def flags_of(names):
